@@ -92,7 +92,7 @@ func Check(env *core.Env, rep *core.Report) *core.Result {
 	sameName := 0
 	run(func() { sameName = checkSameName(env, rep) })
 	// (b) scenarios with the outcomes the model allows
-	gens := []string{"r1c1", "r1c2", "r2c1", "r2c2", "s2", "e1", "e2", "e3", "e2c2"}
+	gens := []string{"r1c1", "r1c2", "r2c1", "r2c2", "s2", "s1c2", "s2c2", "e1", "e2", "e3", "e2c2"}
 	if thorough {
 		gens = append(gens, "r3c1", "r3c2", "s3", "e4", "r4c1", "s4")
 	}
@@ -217,6 +217,9 @@ func Check(env *core.Env, rep *core.Report) *core.Result {
 		if o.res == nil {
 			if o.bin.Crashed() || o.bin.Signaled {
 				add("C12", "crash:"+mode, "process crashed: "+desc+": "+firstLine(o.bin.Stderr), o)
+				if o.sc.Sched {
+					add("C03", "cancelled-run-crashes:"+mode, "the process died while a pipeline run was being cancelled (the run did not return): "+desc+": "+firstLine(o.bin.Stderr), o)
+				}
 			} else if o.bin.TimedOut {
 				add("C12", "hang:"+mode, "worker process hung (60 s): "+desc, o)
 			} else {
